@@ -30,31 +30,140 @@ S_pInf == <<43, 73, 110, 102>>     \* "+Inf"
 S_nInf == <<45, 73, 110, 102>>     \* "-Inf"
 
 -----------------------------------------------------------------------------
-(* Exact decimal rounding.  For the positive finite x = m * 2^e the integer  *)
-(* n for which n * 10^j - x is as close to zero as possible; if there are    *)
-(* two such n the larger one (15.7.4.5 step 8.a, 15.7.4.6 step 9.b.i,        *)
-(* 15.7.4.7 step 10.a), or, with even = TRUE, the even one.                  *)
-RoundDiv(num, den, even) ==
-    LET dm == BnDivMod(num, den)
-        c  == BnCmp(BnShl(dm.rem, 1), den)
-        up == c > 0 \/ (c = 0 /\ (~even \/ BnBit(dm.q, 0) = 1))
-    IN  IF up THEN BnAdd(dm.q, <<1>>) ELSE dm.q
+(* Exact arithmetic helpers.  TLC evaluates about 10^5 limb operations per   *)
+(* second, so the operand order of BnMul matters (it iterates over the limbs *)
+(* of its SECOND argument: long * short) and long divisions are avoided.     *)
 
-RoundPow2(num, k, even) ==      \* round(num / 2^k), k >= 1
-    LET q    == BnShr(num, k)
-        half == BnBit(num, k - 1) = 1
-        rest == k > 1 /\ BnLowBits(num, k - 1) # <<>>
-        up   == half /\ (rest \/ ~even \/ BnBit(q, 0) = 1)
-    IN  IF up THEN BnAdd(q, <<1>>) ELSE q
+(* floor(a / b) and the remainder, fast when the quotient is short (the      *)
+(* digit-generation quotients have at most 8 limbs while a and b may have    *)
+(* 80): the quotient of the leading limbs is an estimate which is then       *)
+(* corrected against the full operands, so the result is exact whatever the  *)
+(* quality of the estimate.                                                  *)
+RECURSIVE QDown(_, _, _)
+QDown(a, b, q) == IF BnCmp(BnMul(b, q), a) > 0 THEN QDown(a, b, BnSub(q, <<1>>)) ELSE q
+RECURSIVE QUp(_, _, _)
+QUp(a, b, q) == LET q1 == BnAdd(q, <<1>>) IN IF BnCmp(BnMul(b, q1), a) <= 0 THEN QUp(a, b, q1) ELSE q
+DivModQ(a, b) ==
+    IF Len(b) <= 12 \/ Len(a) - Len(b) > 10 THEN (LET dm == BnDivMod(a, b) IN [q |-> dm.q, rem |-> dm.rem])
+    ELSE LET s  == Len(b) - 10
+             a1 == IF s >= Len(a) THEN <<>> ELSE SubSeq(a, s + 1, Len(a))
+             b1 == SubSeq(b, s + 1, Len(b))
+             q0 == IF a1 = <<>> THEN <<>> ELSE BnDivMod(a1, b1).q
+             q  == QUp(a, b, QDown(a, b, q0))
+         IN  [q |-> q, rem |-> BnSub(a, BnMul(b, q))]
 
-RoundScaled(m, e, j, even) ==   \* round(m * 2^e / 10^j)
+(* compare the positive x = m * 2^e with 10^k (P = 10^|k|): -1, 0, 1 *)
+CmpPow10P(m, e, k, P) ==
+    IF k >= 0 THEN
+        (LET lx == e + BnBitLen(m)  lp == BnBitLen(P)
+         IN  IF lx < lp THEN -1 ELSE IF lx > lp THEN 1
+             ELSE IF e >= 0 THEN BnCmp(BnShl(m, e), P) ELSE BnCmp(m, BnShl(P, -e)))
+    ELSE IF e >= 0 THEN 1
+    ELSE LET lx == BnBitLen(m) + BnBitLen(P)          \* bit length of m * P is lx or lx - 1
+         IN  IF lx < 1 - e THEN -1 ELSE IF lx - 1 > 1 - e THEN 1
+             ELSE BnCmp(BnMul(P, m), BnShl(<<1>>, -e))
+AbsI(k) == IF k < 0 THEN -k ELSE k
+(* n with 10^(n-1) <= x < 10^n (as NumText!DecExp) *)
+DecExpF(m, e) ==
+    LET E2 == e + BnBitLen(m) - 1
+        n0 == ((E2 * 30103) \div 100000) + 1          \* floor(E2 * log10(2)) + 1, off by at most one
+        P0 == BnPow10(AbsI(n0))
+    IN  IF CmpPow10P(m, e, n0, P0) >= 0 THEN n0 + 1
+        ELSE IF CmpPow10P(m, e, n0 - 1, BnPow10(AbsI(n0 - 1))) < 0 THEN n0 - 1
+        ELSE n0
+Exp10(m, e) == DecExpF(m, e) - 1                      \* e10 with 10^e10 <= x < 10^(e10+1)
+
+(* correctly rounded double nearest to (+/-) Dg * 10^q (as Str!DecToNum) *)
+DecToNumF(neg, Dg, q) ==
+    IF Dg = <<>> THEN Zero(neg)
+    ELSE IF q >= 0 THEN
+         (IF q > 330 THEN Inf(neg) ELSE RoundD(neg, BnMul(BnPow10(q), Dg), 0))
+    ELSE IF -q > 400 + 20 * Len(Dg) THEN Zero(neg)
+    ELSE LET den == BnPow10(-q)
+             \* scale so that the quotient has at least 60 bits; a non-zero rest becomes a sticky bit
+             sh  == Max2(0, BnBitLen(den) - BnBitLen(Dg) + 60)
+             dm  == DivModQ(BnShl(Dg, sh), den)
+             qm  == IF dm.rem = <<>> THEN BnShl(dm.q, 1) ELSE BnAdd(BnShl(dm.q, 1), <<1>>)
+         IN  RoundD(neg, qm, -sh - 1)
+
+(* floor(x / 10^j) for the positive x = m * 2^e, and where the rest lies:    *)
+(* c = -1 below one half, 0 exactly one half, 1 above                        *)
+DivParts(m, e, j) ==
     IF j <= 0 THEN
-        (LET num == BnMul(m, BnPow10(-j))
-         IN  IF e >= 0 THEN BnShl(num, e) ELSE RoundPow2(num, -e, even))
-    ELSE RoundDiv(ScaledNum(m, e, j), ScaledDen(e, j), even)
+        (LET num == BnMul(BnPow10(-j), m)
+         IN  IF e >= 0 THEN [q |-> BnShl(num, e), c |-> -1, ex |-> TRUE]
+             ELSE LET k    == -e
+                      half == BnBit(num, k - 1) = 1
+                      rest == k > 1 /\ BnLowBits(num, k - 1) # <<>>
+                  IN  [q |-> BnShr(num, k), c |-> IF ~half THEN -1 ELSE IF rest THEN 1 ELSE 0, ex |-> ~half /\ ~rest])
+    ELSE LET P   == BnPow10(j)
+             num == IF e >= 0 THEN BnShl(m, e) ELSE m
+             den == IF e < 0 THEN BnShl(P, -e) ELSE P
+             dm  == DivModQ(num, den)
+         IN  [q |-> dm.q, c |-> BnCmp(BnShl(dm.rem, 1), den), ex |-> dm.rem = <<>>]
 
-(* e with 10^e <= x < 10^(e+1) *)
-Exp10(m, e) == DecExp(m, e) - 1
+(* the integer n for which n * 10^j - x is as close to zero as possible; if  *)
+(* there are two such n the larger one (15.7.4.5 step 8.a, 15.7.4.6 step     *)
+(* 9.b.i, 15.7.4.7 step 10.a) or, with even = TRUE, the even one             *)
+Nearest(p, even) ==
+    IF p.c > 0 \/ (p.c = 0 /\ (~even \/ BnBit(p.q, 0) = 1)) THEN BnAdd(p.q, <<1>>) ELSE p.q
+
+(* 9.8.1 step 5: n, k and s with k as small as possible; among the k-digit   *)
+(* candidates the one closest to x (the NOTE of 9.8.1 recommends it), ties   *)
+(* to even.  The decimals that round to x (8.5: nearest, ties to even) form  *)
+(* an interval around x; in units of 10^(n-17) it is [A, B] below.           *)
+(* Same result as NumText!ShortestDigits with three short divisions.         *)
+ShortDigits(x) ==
+    LET m    == MantOf(x)
+        e    == ExpOf(x)
+        n    == DecExpF(m, e)
+        q    == n - 17
+        P    == BnPow10(AbsI(q))
+        E    == e + BnBitLen(m) - 1
+        u    == IF E - 52 > -1074 THEN E - 52 ELSE -1074            \* exponent of the last place
+        X4   == BnShl(m, e - u + 2)                                 \* x in quarter ulps
+        pow2 == m = <<1>> /\ u > -1074                              \* the gap below a power of two is half as wide
+        L4   == BnSub(X4, IF pow2 THEN <<1>> ELSE <<2>>)            \* ends of the rounding interval
+        H4   == BnAdd(X4, <<2>>)
+        incl == e > u                                               \* even significand: the ends round to x
+        \* v * 2^(u-2) / 10^q as floor and exactness
+        Sc(v) == IF q < 0
+                 THEN (LET N == BnMul(P, v)
+                       IN  IF u >= 2 THEN [q |-> BnShl(N, u - 2), ex |-> TRUE]
+                           ELSE [q |-> BnShr(N, 2 - u), ex |-> BnLowBits(N, 2 - u) = <<>>])
+                 ELSE (LET dm == DivModQ(BnShl(v, Max2(u - 2, 0)), BnShl(P, Max2(2 - u, 0)))
+                       IN  [q |-> dm.q, ex |-> dm.rem = <<>>])
+        sl   == Sc(L4)
+        sh   == Sc(H4)
+        A    == IF sl.ex /\ incl THEN sl.q ELSE BnAdd(sl.q, <<1>>)  \* smallest and largest d with d * 10^q rounding to x
+        B    == IF sh.ex /\ ~incl THEN BnSub(sh.q, <<1>>) ELSE sh.q
+        dx   == DivParts(m, e, q)                                   \* x / 10^q: 17 digits and the rest
+        Cand(k) ==
+            LET p10 == BnPow10(17 - k)
+                dm  == IF k = 17 THEN [q |-> dx.q, rem |-> <<>>] ELSE BnDivMod(dx.q, p10)
+                lo  == dm.q
+                hi  == BnAdd(lo, <<1>>)
+                lo17 == BnMul(lo, p10)
+                hi17 == BnMul(hi, p10)
+                \* position of x / 10^(n-k) between lo and hi: -1 nearer lo, 0 half way, 1 nearer hi
+                c   == IF k = 17 THEN dx.c
+                       ELSE LET h == BnCmp(BnShl(dm.rem, 1), p10)
+                            IN  IF h # 0 THEN h ELSE IF dx.ex THEN 0 ELSE 1
+                okLo == BnCmp(lo17, A) >= 0 /\ BnCmp(lo17, B) <= 0
+                okHi == BnCmp(hi17, A) >= 0 /\ BnCmp(hi17, B) <= 0
+                rLo == [ok |-> TRUE, s |-> lo, n |-> n]
+                rHi == IF BnCmp(hi, BnPow10(k)) >= 0 THEN [ok |-> TRUE, s |-> BnPow10(k - 1), n |-> n + 1]
+                       ELSE [ok |-> TRUE, s |-> hi, n |-> n]
+            IN  IF okLo /\ okHi THEN (IF c < 0 THEN rLo ELSE IF c > 0 THEN rHi ELSE IF BnBit(lo, 0) = 0 THEN rLo ELSE rHi)
+                ELSE IF okLo THEN rLo
+                ELSE IF okHi THEN rHi
+                ELSE [ok |-> FALSE]
+        RECURSIVE Min(_, _)
+        Min(lo, hi) ==
+            IF lo = hi THEN (LET c == Cand(lo) IN [digits |-> DigitsBn(c.s), n |-> c.n, k |-> lo])
+            ELSE LET mid == (lo + hi) \div 2
+                 IN  IF Cand(mid).ok THEN Min(lo, mid) ELSE Min(mid + 1, hi)
+    IN  Min(1, 17)
 
 TrimZ(d) == LET RECURSIVE Cut(_)
                 Cut(k) == IF k >= 1 /\ d[k] = 48 THEN Cut(k - 1) ELSE k
@@ -96,6 +205,25 @@ GoFmtG(d, dp, prec) ==
         ELSE GoFmtF(d, dp, Max2((IF prec > dp THEN nd ELSE prec) - dp, 0))
 
 -----------------------------------------------------------------------------
+(* The exact arithmetic of a case is independent of Dev; the generator       *)
+(* evaluates it once and hands it to the strict and to the deviating         *)
+(* instance (the parameters sd and rp of the operators below are evaluated   *)
+(* lazily, only on the paths that need them):                                *)
+(*   sd = PreShort(x): the shortest digits of |x| (9.8.1 step 5)             *)
+(*   rp = PreRound(op, x, a): floor(|x| / 10^j) with the position of the     *)
+(*        rest, j as the operation op with argument a requires, and e10      *)
+PreShort(x) == ShortDigits(AbsN(x))
+PreRound(op, x, a) ==
+    LET ax == AbsN(x)
+        m  == MantOf(ax)
+        e  == ExpOf(ax)
+        ai == IntOf(ArgInt(a))
+        e0 == IF op = "toFixed" THEN 0 ELSE Exp10(m, e)
+        j  == IF op = "toFixed" THEN -ai ELSE IF op = "toExponential" THEN e0 - ai ELSE e0 - ai + 1
+        p  == DivParts(m, e, j)
+    IN  [e10 |-> e0, q |-> p.q, c |-> p.c, ex |-> p.ex]
+
+-----------------------------------------------------------------------------
 (* 9.8.1 ToString(Number) with the layout split in its three shapes          *)
 LayoutExp(d, n)   == Dotted(d) \o ExpSuffix(n - 1, FALSE)              \* steps 9, 10
 LayoutSmall(d, n) == <<48, 46>> \o ZerosStr(-n) \o d                   \* step 8
@@ -104,14 +232,14 @@ LayoutSmall(d, n) == <<48, 46>> \o ZerosStr(-n) \o d                   \* step 8
 (* 10^-6 (relative distance < 2^-48)                                         *)
 Below1e21(m, e) ==
     /\ e >= 0 /\ e + BnBitLen(m) = 70
-    /\ CmpPow10(m, e, 21) < 0
+    /\ BnCmp(BnShl(m, e), BnPow10(21)) < 0
     /\ BnCmp(BnShl(m, e + 46), BnMul(BnPow10(21), BnSub(BnShl(<<1>>, 46), <<1>>))) >= 0
 Below1em6(m, e) ==
     /\ e < 0 /\ e + BnBitLen(m) = -19
-    /\ CmpPow10(m, e, -6) < 0
-    /\ BnCmp(BnShl(BnMul(m, BnPow10(6)), 48), BnShl(BnSub(BnShl(<<1>>, 48), <<1>>), -e)) >= 0
+    /\ BnCmp(BnMul(BnPow10(6), m), BnShl(<<1>>, -e)) < 0
+    /\ BnCmp(BnShl(BnMul(BnPow10(6), m), 48), BnShl(BnSub(BnShl(<<1>>, 48), <<1>>), -e)) >= 0
 
-NumToStrD(x) ==
+NumToStrP(x, sd) ==
     CASE x.c = "nan" -> S_NaN
       [] x.c = "inf" -> IF x.neg THEN S_mInfinity ELSE S_Infinity
       [] IsSafeInt(x) -> IntNumToStr(x)
@@ -119,7 +247,6 @@ NumToStrD(x) ==
            LET a  == AbsN(x)
                m  == MantOf(a)
                e  == ExpOf(a)
-               sd == ShortestDigits(a)
                body ==
                    \* D50: the implementation picks the layout from a floating-point
                    \* log10(x), which rounds to 21 (-6) for the doubles just below
@@ -131,17 +258,51 @@ NumToStrD(x) ==
                    ELSE Layout(sd.digits, sd.n)
            IN  (IF IsNeg(x) THEN <<45>> ELSE <<>>) \o body
 
-ToStr(x) == RS(NumToStrD(x))
-(* 9.3.1 after 9.8.1: the round trip Number(String(x)) *)
-RoundTrip(x) == RN(StrToNum(NumToStrD(x)))
+(* 9.3.1 with the fast decimal conversion (same results as Val!StrToNum) *)
+UnsignedDecToNumF(s, neg) ==
+    IF s = S_InfinityLit THEN [ok |-> TRUE, n |-> Inf(neg)]
+    ELSE LET i1 == SpanDigits(s, 1)
+             hasDot == i1 <= Len(s) /\ s[i1] = 46
+             f0 == IF hasDot THEN i1 + 1 ELSE i1
+             f1 == IF hasDot THEN SpanDigits(s, f0) ELSE f0
+             intD == SubSeq(s, 1, i1 - 1)
+             frD  == SubSeq(s, f0, f1 - 1)
+             hasExp == f1 <= Len(s) /\ s[f1] \in {101, 69}
+             es == IF hasExp /\ f1 + 1 <= Len(s) /\ s[f1 + 1] \in {43, 45} THEN f1 + 2 ELSE f1 + 1
+             eend == IF hasExp THEN SpanDigits(s, es) ELSE f1
+             eneg == hasExp /\ f1 + 1 <= Len(s) /\ s[f1 + 1] = 45
+             okShape == /\ (Len(intD) > 0 \/ Len(frD) > 0)
+                        /\ (~hasExp \/ eend > es)
+                        /\ eend = Len(s) + 1
+         IN  IF ~okShape THEN [ok |-> FALSE]
+             ELSE LET ev == IF hasExp THEN (IF eneg THEN -1 ELSE 1) * SatNat(s, es, 0) ELSE 0
+                  IN  [ok |-> TRUE, n |-> DecToNumF(neg, BnOfDigits(intD \o frD), ev - Len(frD))]
+StrToNumF(s0) ==
+    LET s == Trim(s0)
+    IN  IF s = <<>> THEN I(0)
+        ELSE IF Len(s) >= 3 /\ s[1] = 48 /\ s[2] \in {120, 88} /\ AllHex(s, 3)
+             THEN RoundD(FALSE, BnOfHexAt(s, 3, <<>>), 0)
+        ELSE LET neg == s[1] = 45
+                 body == IF s[1] \in {43, 45} THEN SubSeq(s, 2, Len(s)) ELSE s
+                 r == UnsignedDecToNumF(body, neg)
+             IN  IF r.ok THEN r.n ELSE NaN
+
+ToStrP(x, sd) == RS(NumToStrP(x, sd))
+(* 9.3.1 after 9.8.1, the round trip Number(String(x)): step 5 of 9.8.1      *)
+(* demands that the Number value for s * 10^(n-k) is x, so the result is x   *)
+(* itself (NaN for NaN, +0 for both zeros).  RoundTripHolds states the       *)
+(* consequence for the text this specification produces; the generator       *)
+(* asserts it on every round-trip case.                                      *)
+RoundTripP(x, sd) == RN(IF x.c = "nzero" THEN I(0) ELSE x)
+RoundTripHolds(x, sd) == StrToNumF(NumToStrP(x, sd)) = (IF x.c = "nzero" THEN I(0) ELSE x)
 
 -----------------------------------------------------------------------------
 (* 15.7.4.2 Number.prototype.toString(radix), this value a Number whose      *)
 (* value is an integer or not finite when radix # 10 (the algorithm for      *)
 (* fractions is implementation-dependent and is not specified here)          *)
 RadixChar(v) == IF v < 10 THEN 48 + v ELSE 87 + v
-ChunkLen(r) == CASE r = 2 -> 14 [] r = 3 -> 9 [] r \in {4, 5} -> 6 [] r \in {6, 7} -> 5 [] r = 8 -> 4
-                 [] r \in 9..13 -> 4 [] r \in 14..31 -> 3 [] OTHER -> 2
+ChunkLen(r) == CASE r = 2 -> 14 [] r = 3 -> 9 [] r \in {4, 5} -> 6 [] r \in {6, 7} -> 5
+                 [] r \in 8..13 -> 4 [] r \in 14..31 -> 3 [] OTHER -> 2
 RECURSIVE PowSmall(_, _)
 PowSmall(r, k) == IF k = 0 THEN 1 ELSE r * PowSmall(r, k - 1)
 RECURSIVE SmallDigits(_, _, _)
@@ -157,10 +318,10 @@ RadixDigitsAcc(a, r, acc) ==
     IN  IF dm.q = <<>> \/ Len(a2) < 0 THEN a2 ELSE RadixDigitsAcc(dm.q, r, a2)
 RadixDigits(a, r) == IF a = <<>> THEN <<48>> ELSE RadixDigitsAcc(a, r, <<>>)
 
-ToStringRadix(x, rd) ==
+ToStringRadixP(x, rd, sd) ==
     LET rN == IF rd.t = "undef" THEN I(10) ELSE ArgInt(rd)
     IN  IF ~InIntRange(rN, 2, 36) THEN T("RangeError")
-        ELSE IF IntOf(rN) = 10 THEN ToStr(x)
+        ELSE IF IntOf(rN) = 10 THEN ToStrP(x, sd)
         ELSE CASE x.c = "nan" -> RS(S_NaN)
                [] x.c = "inf" -> RS(IF x.neg THEN S_mInfinity ELSE S_Infinity)
                [] IsZero(x) -> RS(<<48>>)
@@ -175,7 +336,9 @@ ToStringRadix(x, rd) ==
 
 -----------------------------------------------------------------------------
 (* 15.7.4.5 Number.prototype.toFixed(fractionDigits)                          *)
-ToFixed(x, fd) ==
+IsGE1e21(a) == IsInf(a) \/ (~IsZero(a) /\ (ExpOf(a) + BnBitLen(MantOf(a)) > 70 \/
+                                          (ExpOf(a) + BnBitLen(MantOf(a)) = 70 /\ BnCmp(BnShl(MantOf(a), ExpOf(a)), BnPow10(21)) >= 0)))
+ToFixedP(x, fd, sd, rp) ==
     LET fN == ArgInt(fd)                                               \* step 1
     IN  IF ~InIntRange(fN, 0, 20) THEN T("RangeError")                 \* step 2
         ELSE IF IsNaN(x) THEN RS(S_NaN)                                \* step 4
@@ -184,10 +347,9 @@ ToFixed(x, fd) ==
                  neg == IF x.c = "nzero" THEN D("D61_tofixed_negative_zero_sign") ELSE IsNeg(x)
                  s   == IF neg THEN <<45>> ELSE <<>>
                  a   == AbsN(x)
-             IN  IF IsInf(a) \/ (~IsZero(a) /\ CmpPow10(MantOf(a), ExpOf(a), 21) >= 0)
-                 THEN RS(s \o NumToStrD(a))                            \* step 7
+             IN  IF IsGE1e21(a) THEN RS(s \o NumToStrP(a, sd))         \* step 7
                  ELSE LET n  == IF IsZero(a) THEN <<>>                 \* step 8.a
-                                ELSE RoundScaled(MantOf(a), ExpOf(a), -f, D("D60_tofixed_ties_to_even"))
+                                ELSE Nearest(rp, D("D60_tofixed_ties_to_even"))
                           m0 == IF n = <<>> THEN <<48>> ELSE DigitsBn(n)     \* 8.b
                           m1 == IF Len(m0) <= f THEN ZerosStr(f + 1 - Len(m0)) \o m0 ELSE m0   \* 8.c.ii
                           k  == Len(m1)
@@ -195,14 +357,14 @@ ToFixed(x, fd) ==
                           ELSE RS(s \o SubSeq(m1, 1, k - f) \o <<46>> \o SubSeq(m1, k - f + 1, k))
 
 -----------------------------------------------------------------------------
-(* n and e of 15.7.4.6 step 9.b.i / 15.7.4.7 step 10.a: nd digits            *)
-SigDigits(m, e, nd, even) ==
-    LET e0 == Exp10(m, e)
-        n  == RoundScaled(m, e, e0 - nd + 1, even)
-    IN  IF BnCmp(n, BnPow10(nd)) >= 0 THEN [n |-> BnPow10(nd - 1), e |-> e0 + 1] ELSE [n |-> n, e |-> e0]
+(* n and e of 15.7.4.6 step 9.b.i / 15.7.4.7 step 10.a with nd digits: the   *)
+(* nearest n may reach 10^nd, which is 10^(nd-1) with the next exponent      *)
+SigDigits(rp, nd, even) ==
+    LET n == Nearest(rp, even)
+    IN  IF BnCmp(n, BnPow10(nd)) >= 0 THEN [n |-> BnPow10(nd - 1), e |-> rp.e10 + 1] ELSE [n |-> n, e |-> rp.e10]
 
 (* 15.7.4.6 Number.prototype.toExponential(fractionDigits)                    *)
-ToExponential(x, fd) ==
+ToExponentialP(x, fd, sd, rp) ==
     LET fN    == ArgInt(fd)                                            \* step 2
         undef == fd.t = "undef"
         neg   == IF x.c = "nzero" THEN D("D71_toexponential_negative_zero_sign") ELSE IsNeg(x)   \* steps 4-5
@@ -220,8 +382,8 @@ ToExponential(x, fd) ==
              IN  IF IsZero(a) THEN                                     \* step 8
                      RS(s \o Dotted(ZerosStr((IF undef THEN 0 ELSE IntOf(fN)) + 1)) \o ExpSuffix(0, two))
                  ELSE IF undef THEN                                    \* step 9.b.ii: as many digits as necessary
-                     (LET sd == ShortestDigits(a) IN RS(s \o Dotted(sd.digits) \o ExpSuffix(sd.n - 1, two)))
-                 ELSE LET r == SigDigits(MantOf(a), ExpOf(a), IntOf(fN) + 1, D("D75_toexponential_ties_to_even"))
+                     RS(s \o Dotted(sd.digits) \o ExpSuffix(sd.n - 1, two))
+                 ELSE LET r == SigDigits(rp, IntOf(fN) + 1, D("D75_toexponential_ties_to_even"))
                       IN  RS(s \o Dotted(DigitsBn(r.n)) \o ExpSuffix(r.e, two))
 
 -----------------------------------------------------------------------------
@@ -234,14 +396,14 @@ PrecLayout(m, e, p) ==
     ELSE IF e >= 0 THEN SubSeq(m, 1, e + 1) \o <<46>> \o SubSeq(m, e + 2, p)     \* step 12
     ELSE <<48, 46>> \o ZerosStr(-(e + 1)) \o m                         \* step 13
 
-ToPrecision(x, pd) ==
+ToPrecisionP(x, pd, sd, rp) ==
     LET pN  == ArgInt(pd)                                              \* step 3
         neg == IF x.c = "nzero" THEN D("D81_toprecision_negative_zero_sign") ELSE IsNeg(x)      \* steps 5-6
         s   == IF neg THEN <<45>> ELSE <<>>
         a   == AbsN(x)
         bad == NumLt(pN, I(1)) \/ (NumLt(I(21), pN) /\ ~(D("D83_toprecision_no_upper_range") /\ ~NumLt(I(100), pN)))
         go  == D("D80_toprecision_go_g_layout")
-    IN  IF pd.t = "undef" THEN ToStr(x)                                \* step 2
+    IN  IF pd.t = "undef" THEN ToStrP(x, sd)                           \* step 2
         ELSE IF IsNaN(x) THEN RS(S_NaN)                                \* step 4
         ELSE IF IsInf(a) THEN                                          \* step 7 precedes step 8
              (IF D("D84_toprecision_range_before_infinity") /\ NumLt(pN, I(1)) THEN T("RangeError")
@@ -251,9 +413,18 @@ ToPrecision(x, pd) ==
         ELSE LET p == IntOf(pN)
              IN  IF IsZero(a) THEN                                     \* step 9
                      RS(s \o (IF go THEN GoFmtG(<<>>, 0, p) ELSE PrecLayout(ZerosStr(p), 0, p)))
-                 ELSE LET r == SigDigits(MantOf(a), ExpOf(a), p, D("D85_toprecision_ties_to_even"))
+                 ELSE LET r == SigDigits(rp, p, D("D85_toprecision_ties_to_even"))
                           m == DigitsBn(r.n)
                       IN  RS(s \o (IF go THEN GoFmtG(TrimZ(m), r.e + 1, p) ELSE PrecLayout(m, r.e, p)))
+
+(* the operators on their own (each evaluates its exact arithmetic itself) *)
+NumToStrD(x)         == NumToStrP(x, PreShort(x))
+ToStr(x)             == ToStrP(x, PreShort(x))
+RoundTrip(x)         == RoundTripP(x, PreShort(x))
+ToStringRadix(x, rd) == ToStringRadixP(x, rd, PreShort(x))
+ToFixed(x, fd)       == ToFixedP(x, fd, PreShort(x), PreRound("toFixed", x, fd))
+ToExponential(x, fd) == ToExponentialP(x, fd, PreShort(x), PreRound("toExponential", x, fd))
+ToPrecision(x, pd)   == ToPrecisionP(x, pd, PreShort(x), PreRound("toPrecision", x, pd))
 
 -----------------------------------------------------------------------------
 (* 15.1.2.2 parseInt(string, radix); string is a String value                *)
@@ -351,7 +522,7 @@ ParseFloatES(s) ==
                  nF  == IF dot THEN f1 - i1 - 1 ELSE 0
                  ee  == ExpEnd(t, f1)
              IN  IF nI + nF = 0 THEN NaN                               \* step 3
-                 ELSE DecToNum(neg, BnOfDigits(SubSeq(t, b0, i1 - 1) \o SubSeq(t, i1 + 1, f1 - 1)),
+                 ELSE DecToNumF(neg, BnOfDigits(SubSeq(t, b0, i1 - 1) \o SubSeq(t, i1 + 1, f1 - 1)),
                                ExpVal(t, f1, ee) - nF)                 \* steps 4-5
 
 (* What the implementation does instead: it trims both ends, answers NaN     *)
@@ -416,7 +587,7 @@ GoAccept(p) ==
                  /\ (IF hasE THEN ee ELSE f1) = Len(p) + 1
                  /\ (Contains(p, <<95>>) => UnderscoreOK(p))
         val == IF hex THEN RoundD(neg, BnOfHexAt(dI \o dF, 1, <<>>), ev - 4 * Len(dF))
-               ELSE DecToNum(neg, BnOfDigits(dI \o dF), ev - Len(dF))
+               ELSE DecToNumF(neg, BnOfDigits(dI \o dF), ev - Len(dF))
     IN  IF body = S_Infinity THEN [ok |-> TRUE, n |-> Inf(neg)]
         ELSE IF D("D97_parsefloat_inf_spellings") /\ lb \in {S_inf, S_infinity} THEN [ok |-> TRUE, n |-> Inf(neg)]
         ELSE IF D("D97_parsefloat_inf_spellings") /\ ~sg /\ lb = <<110, 97, 110>> THEN [ok |-> TRUE, n |-> NaN]
@@ -465,16 +636,16 @@ ScanNumeric(u) ==
          (LET he == SpanHex(u, 3)
               hd == SubSeq(u, 3, he - 1)
               bn == BnOfHexAt(hd, 1, <<>>)
-          IN  IF he = 3 THEN [ok |-> TRUE, end |-> 2, n |-> I(0)]          \* "0" followed by x: rejected by the caller
-              ELSE [ok |-> TRUE, end |-> he,
+          IN  IF he = 3 THEN [ok |-> TRUE, end |-> 2, n |-> I(0), isInt |-> TRUE, bn |-> <<>>]   \* "0" followed by x: rejected by the caller
+              ELSE [ok |-> TRUE, end |-> he, isInt |-> TRUE, bn |-> bn,
                     n |-> IF D("D99_hex_literal_big_accumulated_in_float") /\ Is2p63(bn) THEN FloatAccum(hd, 16)
                           ELSE RoundD(FALSE, bn, 0)])
     ELSE IF u[1] = 48 /\ Len(u) >= 2 /\ u[2] >= 48 /\ u[2] <= 55 THEN        \* B.1.1 OctalIntegerLiteral
          (LET oe == SpanOct(u, 2)
               od == SubSeq(u, 2, oe - 1)
               bn == BnOfRadix(od, 8)
-          IN  [ok |-> TRUE, end |-> oe,
-               n |-> IF D("D9A_octal_literal_big_read_as_decimal") /\ Is2p63(bn) THEN DecToNum(FALSE, BnOfDigits(od), 0)
+          IN  [ok |-> TRUE, end |-> oe, isInt |-> TRUE, bn |-> bn,
+               n |-> IF D("D9A_octal_literal_big_read_as_decimal") /\ Is2p63(bn) THEN DecToNumF(FALSE, BnOfDigits(od), 0)
                      ELSE RoundD(FALSE, bn, 0)])
     ELSE LET i1  == IF u[1] = 48 THEN 2 ELSE SpanDigits(u, 1)          \* DecimalIntegerLiteral :: 0 | NonZeroDigit DecimalDigits
              dot == i1 <= Len(u) /\ u[i1] = 46
@@ -483,8 +654,8 @@ ScanNumeric(u) ==
              nF  == IF dot THEN f1 - i1 - 1 ELSE 0
              ee  == ExpEnd(u, f1)
          IN  IF nI + nF = 0 THEN [ok |-> FALSE]
-             ELSE [ok |-> TRUE, end |-> ee,
-                   n |-> LET v == DecToNum(FALSE, BnOfDigits(SubSeq(u, 1, i1 - 1) \o SubSeq(u, i1 + 1, f1 - 1)),
+             ELSE [ok |-> TRUE, end |-> ee, isInt |-> ~dot /\ ee = f1, bn |-> BnOfDigits(SubSeq(u, 1, i1 - 1)),
+                   n |-> LET v == DecToNumF(FALSE, BnOfDigits(SubSeq(u, 1, i1 - 1) \o SubSeq(u, i1 + 1, f1 - 1)),
                                            ExpVal(u, f1, ee) - nF)
                          IN  IF IsZero(v) THEN I(0) ELSE v]
 
@@ -500,4 +671,22 @@ LitEval(u) ==
                  ELSE IF IsDigit(u[tk.end + 1]) \/ u[tk.end + 1] = 46 THEN T("SyntaxError")   \* two literals, or ".."
                  ELSE IF IsIdStart(u[tk.end + 1]) /\ SpanId(u, tk.end + 1) = Len(u) + 1 THEN R(Undef)   \* 11.2.1 on a Number
                  ELSE [thr |-> "skip"]
+
+(* String(<literal>) and String(parseInt(s, radix)): 9.8.1 applied to the    *)
+(* Number value.  D9B / D92: the implementation carries integers below 2^63  *)
+(* as 64-bit integers, not as doubles; ToString shows all their digits.      *)
+LitStr(u) ==
+    LET tk == ScanNumeric(u)
+        r  == LitEval(u)
+    IN  IF r.thr # "" \/ r.v.t # "num" THEN [thr |-> "skip"]
+        ELSE IF D("D9B_integer_literal_kept_as_int64") /\ tk.isInt /\ ~Is2p63(tk.bn)
+        THEN RS(IF tk.bn = <<>> THEN <<48>> ELSE DigitsBn(tk.bn))
+        ELSE RS(NumToStrD(r.v.n))
+ParseIntStr(s, rd) ==
+    LET p  == PIParts(s, rd)
+        r  == ParseInt(s, rd)
+        mi == BnOfRadix(p.Z, p.R)
+    IN  IF D("D92_parseint_result_kept_as_int64") /\ ~p.bad /\ p.Z # <<>> /\ ~Is2p63(mi)
+        THEN RS(IF mi = <<>> THEN <<48>> ELSE (IF p.neg THEN <<45>> ELSE <<>>) \o DigitsBn(mi))
+        ELSE RS(NumToStrD(r.v.n))
 =============================================================================
